@@ -49,6 +49,10 @@ def r1(cx):
                     some_edges.append(variant_edge(term, 1))
             if not some_edges:
                 bad.append("result of %s is never matched on Some/None" % kt.callee.name); continue
+            # the match that first looks at the key decides; a later re-match of the same value (a helper handing the key on) comes after the value was consumed
+            from vlib import absval
+            first = [e for e in some_edges if e[0] in absval.sens_reach(cfg, du, [(kt.target, {})], blocked_nodes={e2[0] for e2 in some_edges if e2[0] != e[0]})]
+            some_edges = first or some_edges
             for e in some_edges:
                 targets = [x.bb for x in K] + sorted(okret)
                 if not cfg.must_pass(e[2], targets, vb - {e[2]}) and e[2] not in vb:
@@ -96,9 +100,35 @@ def r3(cx, rule="C17.R3"):
     cx.saw(ser)
     du = DefUse(ser); sl = Slice(ser, du); cfg = Cfg(ser)
     sm = ser.calls("=serialize_map"); se = ser.calls("=serialize_entry"); en = ser.calls("=end")
+    in_closure = None
+    if not se:
+        # iterator spelling: self.inner.iter().try_for_each(|k| map.serialize_entry(k, &EMPTY))
+        for c in [x for x in ser.unit.bodies if x.promoted is None and x.parent == ser.path]:
+            if c.calls("=serialize_entry"): in_closure = c
     other = [t for t in ser.calls() if not t.callee.indirect and t.callee.name.startswith("serialize_") and t.callee.name not in ("serialize_map", "serialize_entry")]
     why = []
-    if len(sm) != 1 or len(se) != 1 or len(en) != 1 or other: why.append("expected serialize_map + serialize_entry (in the element loop) + end, found map=%d entry=%d end=%d other=%s" % (len(sm), len(se), len(en), [t.callee.name for t in other]))
+    def writes_empty_map(tyname):
+        for b in ser.unit.bodies:
+            if b.promoted is None and b.path.endswith("::serialize") and (b.impl_self or "").split("::")[-1] == tyname and not (b.mac and "derive" in b.mac):
+                names = [t.callee.name for t in b.calls() if not t.callee.indirect and (t.callee.name.startswith("serialize_") or t.callee.name == "end")]
+                return names.count("serialize_map") == 1 and "end" in names and all(n in ("serialize_map", "end") for n in names)
+        return False
+    if in_closure is not None and len(sm) == 1 and len(en) == 1 and not other:
+        c = in_closure
+        cdu = DefUse(c); csl = Slice(c, cdu)
+        ce = c.calls("=serialize_entry")
+        it = [t for t in ser.calls("=try_for_each", "=for_each")]
+        if len(ce) != 1 or len(it) != 1: why.append("expected one serialize_entry inside the element closure of one try_for_each (found %d/%d)" % (len(ce), len(it)))
+        else:
+            if not any(k == "arg" and o == 2 for k, o in csl.origins(ce[0].args[1])): why.append("entry key is not the iterated element")
+            vty = c.ty(ce[0].args[2].place.l) if ce[0].args[2].place is not None else ""
+            tyname = vty.replace("&", "").replace("'_ ", "").strip().split("::")[-1]
+            vo = csl.origins(ce[0].args[2])
+            objs = [o for k, o in vo if k == "call" and o.callee.name == "new" and "serde_json::Map" in o.callee.path]
+            if not (writes_empty_map(tyname) or objs): why.append("entry value is neither an empty serde_json::Map nor a type that serialises as an empty map (%s)" % tyname)
+        cx.check(not why, rule, "varlink:StringHashSet:serialize-shape", ser.sp, "; ".join(why), note_ok="map{len} of element -> {} (closure form); end")
+        why = None
+    elif len(sm) != 1 or len(se) != 1 or len(en) != 1 or other: why.append("expected serialize_map + serialize_entry (in the element loop) + end, found map=%d entry=%d end=%d other=%s" % (len(sm), len(se), len(en), [t.callee.name for t in other]))
     else:
         # entry inside the loop over the set's elements
         if se[0].bb not in cfg.reach(se[0].target): why.append("serialize_entry is not inside the element loop")
@@ -107,16 +137,27 @@ def r3(cx, rule="C17.R3"):
         # value operand: an empty JSON object
         vo = sl.origins(se[0].args[2])
         objs = [o for k, o in vo if k == "call" and o.callee.name == "new" and "serde_json::Map" in o.callee.path]
-        if not objs or any(k in ("arg",) for k, _ in vo): why.append("entry value is not an empty serde_json::Map (origins %s)" % [(k, str(o)[:60]) for k, o in vo])
-        through = [s for s in getattr(sl, "last_through", []) if hasattr(s, "agg") and isinstance(getattr(s, "agg", None), dict)]
-        if not any(s.agg.get("adt", "").endswith("Value") and s.agg.get("variant") == "Object" for s in through): why.append("entry value is not Value::Object")
+        # alternative: a private type whose own (hand-written) Serialize writes an empty map: serialize_map(..) immediately ended
+        def writes_empty_map(tyname):
+            for b in ser.unit.bodies:
+                if b.promoted is None and b.path.endswith("::serialize") and (b.impl_self or "").split("::")[-1] == tyname and not (b.mac and "derive" in b.mac):
+                    names = [t.callee.name for t in b.calls() if not t.callee.indirect and (t.callee.name.startswith("serialize_") or t.callee.name == "end")]
+                    return names.count("serialize_map") == 1 and "end" in names and all(n in ("serialize_map", "end") for n in names)
+            return False
+        vty = ser.ty(se[0].args[2].place.l) if se[0].args[2].place is not None else ""
+        tyname = vty.replace("&", "").replace("'_ ", "").strip().split("::")[-1]
+        custom_empty = bool(tyname) and writes_empty_map(tyname)
+        if not custom_empty:
+            if not objs or any(k in ("arg",) for k, _ in vo): why.append("entry value is not an empty serde_json::Map (origins %s)" % [(k, str(o)[:60]) for k, o in vo])
+            through = [s for s in getattr(sl, "last_through", []) if hasattr(s, "agg") and isinstance(getattr(s, "agg", None), dict)]
+            if not any(s.agg.get("adt", "").endswith("Value") and s.agg.get("variant") == "Object" for s in through): why.append("entry value is not Value::Object")
         # key operand: the element
         ko = sl.origins(se[0].args[1])
         if not any(k == "call" and o.callee.name == "next" for k, o in ko): why.append("entry key is not the iterated element")
         # nothing mutates the object map before use
         ins = [t for t in ser.calls("=insert") if "serde_json" in t.callee.path]
         if ins: why.append("the value object is filled before use")
-    cx.check(not why, rule, "varlink:StringHashSet:serialize-shape", ser.sp, "; ".join(why), note_ok="map{len} of element -> {} ; end")
+    if why is not None: cx.check(not why, rule, "varlink:StringHashSet:serialize-shape", ser.sp, "; ".join(why), note_ok="map{len} of element -> {} ; end")
     de = cx.mir.one("varlink", "<impl _::_serde::Deserialize<'de> for StringHashSet>::deserialize", exact=False) if False else None
     cands = [b for b in cx.mir.bodies("varlink") if b.promoted is None and b.path.endswith("::deserialize") and "StringHashSet" in (b.impl_self or b.path)]
     if len(cands) != 1: raise AnchorMissing("StringHashSet::deserialize: %d candidates" % len(cands))
